@@ -124,6 +124,9 @@ def run_unit(template_path, repo_root, workdir, rlimit=60, extra_args=None, muta
     with open(out_path, 'w') as f:
         f.write(gen.text())
     res.out_path = out_path
+    m_rl = re.search(r'^//@ rlimit (\d+)', open(template_path).read(), re.M)
+    if m_rl:
+        rlimit = max(rlimit, int(m_rl.group(1)))
     cmd = [VERUS, out_path, '--output-json', '--time', '--multiple-errors', '30', '--rlimit', str(rlimit),
            '--error-format=json', '--num-threads', str(threads)] + (extra_args or [])
     res.cmd = ' '.join(cmd)
